@@ -460,6 +460,40 @@ def r_split(prog, R):
             else:
                 r.viol(k, f.name, f.loc(c["ln"]), "%s splits with a section limit of '%s': the limit does not drop surplus tokens, it makes the last element swallow the rest of the text including the separators, so a list value such as 'domain a b' becomes one bogus entry instead of its first valid token" % (f.name, render(mx)))
     r.info["split_calls"] = n
+    # white-space separated values: a splitter of the resolv.conf value handlers that separates on SPACE separates on TAB as well, and the
+    # helper that fetches a line's value does not reject the line for a TAB (resolv.conf(5): "separated by spaces or tabs")
+    for f in sorted(prog.funcs.values(), key=lambda x: x.key):
+        if f.file != "src/lib/ares_sysconfig_files.c":
+            continue
+        for b, i, c in f.calls():
+            if c.get("callee") not in ("ares_buf_split", "ares_buf_split_str"):
+                continue
+            d = strip(call_arg(c, 1))
+            while d is not None and d.get("k") == "cast":
+                d = strip(d["e"])
+            lit = d.get("s") if d is not None and d.get("k") == "str" else None
+            if lit is None or " " not in lit:
+                continue
+            k = "fn=%s splits on tabs wherever it splits on spaces (%r)" % (f.name, lit)
+            if "\t" in lit:
+                r.ok(k, f.loc(c["ln"]), nontrivial=False)
+            else:
+                r.viol(k, f.name, f.loc(c["ln"]), "%s separates the words of a configuration value on %r but not on TAB: 'search a.example<TAB>b.example' becomes one invalid token and the directive has no effect" % (f.name, lit))
+    g = prog.func("buf_fetch_string", file="src/lib/ares_sysconfig_files.c", required=False)
+    k = "a line's value is not rejected for a TAB"
+    if g is None:
+        r.broke("buf_fetch_string (value fetch of the line handlers) not found")
+    else:
+        handles_tab = False
+        for b2, i2, e2 in g.elements():
+            for nd in walk(e2.get("e")) if e2.get("e") is not None else []:
+                if nd.get("k") == "int" and nd.get("v") == 9 and nd.get("chr"):
+                    handles_tab = True
+        strict = bool(g.calls_to("ares_buf_tag_fetch_string")) or bool(g.calls_to("ares_str_isprint"))
+        if strict and not handles_tab:
+            r.viol(k, g.name, g.loc(g.ln), "the value of a configuration line is fetched through a printable-characters-only primitive without treating TAB as a separator: any line whose value contains a tab (allowed by resolv.conf(5)) is ignored as a whole")
+        else:
+            r.ok(k, g.loc(g.ln))
 
 
 def r_empty(prog, R):
